@@ -33,7 +33,8 @@ def trigger_jobs(tier, seed):
     q = tier == "quick"
     from framework.props import bigrun
 
-    return matrix_jobs(tier, seed) + probe_jobs(tier, seed) + bigrun.jobs("C08", tier, seed + 4) + [Job("framework.props.triggers", "run_triggers",
+    return matrix_jobs(tier, seed) + probe_jobs(tier, seed) + bigrun.jobs("C08", tier, seed + 4) + bigrun.interp_jobs(
+        "C08", tier, seed + 8, ["budget", "fixpoint"]) + [Job("framework.props.triggers", "run_triggers",
                 {"seed": seed * 389 + k, "count": 8000 if q else 60000, "deadline_s": 80 if q else 600},
                 mode="interp" if k % 2 else "jit", timeout=300 if q else 1500, tag="triggers:%d" % k)
             for k in range(2 if q else 6)]
@@ -47,7 +48,7 @@ def main(tier, seed):
         proberun.aggregate(rep, [j for j in extra if j.func == "run_probe"])
         from framework.props import bigrun
 
-        bigrun.aggregate(rep, [j for j in extra if j.func == "run_big"])
+        bigrun.aggregate(rep, [j for j in extra if j.func in ("run_big", "run_big_interp")])
         triggers.aggregate_matrix(rep, [j for j in extra if j.func == "run_event_matrix"])
 
     rep = _modelprop.run(
@@ -59,7 +60,8 @@ def main(tier, seed):
                ("triggers.unwatched_moves_checked", 2000, "trigger sufficiency"),
                ("probe.bc_passes_monitored", 3000, "compiled in-engine probe (plane B)"),
                ("event_matrix.(type,event) cells", 100, "event x watcher matrix"),
-               ("probe.reexecutions", 5000, "compiled in-engine probe (plane B)")],
+               ("probe.reexecutions", 5000, "compiled in-engine probe (plane B)"),
+               ("fixpoint.ofix_compared_beyond_enumeration", 20, "greatest fixpoint of large models (support oracle)")],
         assumptions=["O-fix: chaotic iteration of the exhaustive hull operator; equality demanded only for models whose "
                      "constraints are all BC-documented types (gcc with positive capacities, no affine_eq)",
                      "order-independence is asserted only for those models"],
